@@ -13,6 +13,45 @@ PROPS = {
     ),
 }
 
+KS = "poc/wallet/keystore"
+PROPS["C02"] = dict(
+    pkgs=[KS], level="exploration",
+    quick=dict(checks=480, shards=16, timeout=400),
+    thorough=dict(checks=16000, shards=16, timeout=2400),
+    technique="property-based testing: rapid-generated wallet histories with restarts vs. reference model of the observable wallet state",
+    level_text="Generated operation histories (two wallets, restarts after any prefix, wrong-public-passphrase opens) are compared after every step with an explicit reference model of keystores, remarks, per-index keys, counters, ordinals and passphrase behaviour. Exploration with bounded history length (<=29 ops), not a proof.",
+    level_note="Trusted: the reference model in harness/poc/wallet/keystore/zz_verif_wallet_test.go; scrypt cost lowered in-package (N=16) - key derivation logic unchanged; goleveldb durability.",
+    assumptions=["scrypt N lowered to 16 through the package's own secretKeyGen seam", "keys are compared for stability, their BIP32 correctness is C18's subject"],
+)
+
+PROPS["C03"] = dict(
+    pkgs=[KS], level="exploration",
+    quick=dict(checks=480, shards=16, timeout=400),
+    thorough=dict(checks=16000, shards=16, timeout=2400),
+    technique="property-based testing: rapid-generated wallet histories with adversarial passphrase arguments vs. reference model, plus in-package inspection of secret fields after every step",
+    level_text="Generated histories where every passphrase argument is current/superseded/public/other/ill-formed; the model predicts which privileged calls may succeed; after every step lock flags must be all-or-nothing and a locked keystore is inspected in-package for private keys, private crypto key, passphrase hash and a master key that still opens the private crypto key. Exploration, bounded history length.",
+    level_note="Trusted: reference model; the in-package inspection reads the fields named in the property anchors (a refactoring that moves secrets to new fields needs the inspector updated). scrypt N=16.",
+    assumptions=["secrets are inspected in the fields of AddrManager/ManagedAddress that exist on the pinned tree", "Go garbage (already dropped copies) is out of scope"],
+)
+PROPS["C05"] = dict(
+    pkgs=[KS], level="exploration",
+    quick=dict(checks=400, shards=16, timeout=400),
+    thorough=dict(checks=12000, shards=16, timeout=2400),
+    technique="property-based testing: rapid-generated wallet histories, signatures judged by the chain library's pocec verification (independent of the wallet's VerifySig)",
+    level_text="Every signature produced in generated histories (keys issued locked/unlocked, both branches, after restart/import/passphrase change) is verified with mass-core pocec under exactly the requested key and digest and must not verify under any other issued key; locked / foreign / malformed requests must fail. Exploration.",
+    level_note="Trusted: mass-core pocec Signature.Verify and wire.HashH as the verification authority; reference model.",
+    assumptions=["keeper path SpaceKeeper.SignHash is exercised in the capacity harness (C06/C15) only as pass-through"],
+)
+PROPS["C01"] = dict(
+    pkgs=[KS], level="exploration",
+    quick=dict(checks=480, shards=16, timeout=400),
+    thorough=dict(checks=16000, shards=16, timeout=2400),
+    technique="property-based testing: rapid-generated export/delete/import histories across two wallets, round-trip oracle against a reference model, single-field corruption of the export file",
+    level_text="Round trip export->import (same wallet after delete, other wallet) over generated histories is compared key by key with the model; rejected imports (wrong passphrase, present keystore, tampered file) must leave both wallets equal to the model; all restored keys must sign after unlock. Exploration with bounded history length and one corruption per import.",
+    level_note="Trusted: reference model; pocec verification. Corruptions of unauthenticated fields are classified per field (see known_findings.json).",
+    assumptions=["child counts are corrupted by at most +-8 so that a hostile count cannot stall the run"],
+)
+
 META = dict(
     na_default="check not built yet in this session (work in progress; see DESIGN.md §4) - not a claim that the technique cannot apply",
     hooks=dict(guard="verif", enable="go test -tags verif (the driver ./check always builds with -tags verif through -overlay/-modfile, see DESIGN.md §2.2)",
